@@ -5,14 +5,19 @@ Main statements: `sector_covers`, `orbits_disjoint`, `inFirstThird_false_iff`, `
 `full_cells_are_orbits`, `convert_never_collides`, `count_times_three`, `par_totals_times_three`,
 `geo_totals_times_three`, `copies_rotated_into_place`, `copies_independent_named`, `restore_convert`,
 `removeEdge_addEdge_id`, `addEdge_adds_images`.  The other lemmas are the stepping stones (loop invariants).
-Not carried by a theorem (see harness PARTIAL): invariance over arbitrary op sequences (checked by the
-correspondence + oracle on generated sequences only).
+Below block level (pin lattices, their owners, pins; Model/Sym3.lean `Sub`): `copyBlock_pins`, `convert_copies_below`,
+`subLoop_keys`, `subStep_extends`, `no_shared_node`, `clean_run`, `sources_untouched_run`, `convert_entries_visible`,
+`pin_global_turn_120`, `pin_global_turn_240` (Euclidean: global pin positions of a copy = the source's rotated).
+Value level of the centre scaling: `scaleVal_down_up`, `scaleBlockVals_down_up`, `scaleVal_up_sum`.
 -/
 import ArmiVerif.Model.Sym3
 import Mathlib.Data.List.Nodup
 import Mathlib.Tactic.Ring
 import Mathlib.Tactic.Linarith
 import Mathlib.Data.Rat.Defs
+import Mathlib.Tactic.FieldSimp
+import Mathlib.Tactic.LinearCombination
+import Mathlib.Algebra.Field.Basic
 namespace ArmiVerif.Sym3
 open ArmiVerif.Hex List
 
@@ -978,5 +983,497 @@ theorem run_scalesCentre (s : State) (ops : List Op) (hf : s.full = false) (hca 
   rcases good_run (base s) ops s (good_init s hf hca hids hflag) ho h0 with h | ⟨t, ht, he⟩
   · exact h.scales
   · rw [he, convert_full t ht.third] at hthird; exact absurd hthird (by simp)
+
+/-! ### below block level: pin lattices, owners, pins (Model/Sym3.lean `Sub`) -/
+
+/-- the objects an observer reaches through one block: the block, its pin lattice, the lattice's `armiObject` -/
+def objsB (b : PBlock) : List Obj := b.self :: (b.grid.toList ++ b.owner.toList)
+
+/-- everything reachable below the assembly numbered `k` -/
+def objsOf (sub : Sub) (k : Int) : List Obj := (subOf sub k).flatMap objsB
+
+/-- every object listed in an entry carries the number of the assembly the entry belongs to -/
+def CleanEntry (e : Int × List PBlock) : Prop := ∀ b ∈ e.2, ∀ o ∈ objsB b, o.1 = e.1
+
+/-- every pin lattice refers back to the block that holds it, and the block's child locators sit on it -/
+def OwnedEntry (e : Int × List PBlock) : Prop := ∀ b ∈ e.2, b.grid.isSome = true → b.owner = some b.self ∧ b.onOwn = true
+
+def Clean (sub : Sub) : Prop := ∀ e ∈ sub, CleanEntry e
+
+private theorem copyBlock_clean (n r : Int) (b : PBlock) : ∀ o ∈ objsB (copyBlock n r b), o.1 = n := by
+  intro o ho
+  cases hg : b.grid <;> simp [objsB, copyBlock, renObj, hg] at ho
+  · rw [ho]
+  · rcases ho with rfl | rfl | rfl <;> rfl
+
+private theorem copyBlock_owned (n r : Int) (b : PBlock) (h : (copyBlock n r b).grid.isSome = true) :
+    (copyBlock n r b).owner = some (copyBlock n r b).self ∧ (copyBlock n r b).onOwn = true := by
+  cases hg : b.grid <;> simp [copyBlock, hg] at h ⊢
+
+/-- **the pins of a copy are the pins of its source turned in the lattice by the copy's angle** (`rotNum`·60°) -/
+theorem copyBlock_pins (n r : Int) (b : PBlock) (h : b.grid.isSome = true) :
+    (copyBlock n r b).pins = b.pins.map (rotateIndex r) := by
+  simp [copyBlock, h]
+
+private theorem copied_entry (sub : Sub) (k n r : Int) :
+    CleanEntry (n, (subOf sub k).map (copyBlock n r)) ∧ OwnedEntry (n, (subOf sub k).map (copyBlock n r)) := by
+  constructor
+  · intro b hb o ho
+    obtain ⟨b0, _, rfl⟩ := List.mem_map.1 hb
+    exact copyBlock_clean n r b0 o ho
+  · intro b hb hg
+    obtain ⟨b0, _, rfl⟩ := List.mem_map.1 hb
+    exact copyBlock_owned n r b0 hg
+
+private theorem subCopies_spec (sub : Sub) (a : Assem) (n c : Int) (cs : List Cell) :
+    ∀ e ∈ subCopies sub a n c cs, n ≤ e.1 ∧ e.1 < n + cs.length ∧ CleanEntry e ∧ OwnedEntry e := by
+  induction cs generalizing n c with
+  | nil => simp [subCopies]
+  | cons x cs ih =>
+    intro e he
+    simp only [subCopies, List.mem_cons] at he
+    rcases he with rfl | he
+    · refine ⟨by simp, by simp, (copied_entry sub a.id n _).1, (copied_entry sub a.id n _).2⟩
+    · obtain ⟨h1, h2, h3, h4⟩ := ih (n + 1) (c + 1) e he
+      refine ⟨by omega, by simp only [List.length_cons]; omega, h3, h4⟩
+
+private theorem subCopies_length (sub : Sub) (a : Assem) (n c : Int) (cs : List Cell) :
+    (subCopies sub a n c cs).length = cs.length := by
+  induction cs generalizing n c with
+  | nil => rfl
+  | cons x cs ih => simp [subCopies, ih]
+
+private theorem subLoop_spec (sub : Sub) (l : List Assem) (n : Int) :
+    ∀ e ∈ subLoop sub l n, n ≤ e.1 ∧ CleanEntry e ∧ OwnedEntry e := by
+  induction l generalizing n with
+  | nil => simp [subLoop]
+  | cons a l ih =>
+    intro e he
+    simp only [subLoop, List.mem_append] at he
+    rcases he with he | he
+    · obtain ⟨h1, _, h3, h4⟩ := subCopies_spec sub a n 1 _ e he
+      exact ⟨h1, h3, h4⟩
+    · obtain ⟨h1, h3, h4⟩ := ih _ e he
+      refine ⟨?_, h3, h4⟩
+      have : (0 : Int) ≤ ((subCopies sub a n 1 (sym3 a.cell)).length : Int) := Int.natCast_nonneg _
+      omega
+
+private theorem mkCopies_keys (sub : Sub) (a : Assem) (n c : Int) (cs : List Cell) :
+    (subCopies sub a n c cs).map (·.1) = (mkCopies a n c cs).map (·.id) := by
+  induction cs generalizing n c with
+  | nil => rfl
+  | cons x cs ih => simp [subCopies, mkCopies, ih]
+
+private theorem mkCopies_len' (a : Assem) (n c : Int) (cs : List Cell) : (mkCopies a n c cs).length = cs.length := by
+  induction cs generalizing n c with
+  | nil => rfl
+  | cons x cs ih => simp [mkCopies, ih]
+
+/-- **the table gets exactly one new entry per copy `convert` adds, keyed by the copy's assembly number**, in order -/
+theorem subLoop_keys (sub : Sub) (l : List Assem) (n : Int) (f cl : Bool) :
+    (subLoop sub l n).map (·.1) = (convLoop l n f cl).copies.map (·.id) := by
+  induction l generalizing n f cl with
+  | nil => rfl
+  | cons a l ih =>
+    simp only [subLoop, convLoop, List.map_append]
+    split <;> simp only [List.map_append, mkCopies_keys, subCopies_length, mkCopies_len'] <;> rw [ih]
+
+/-- **what `convert` makes below block level, copy by copy**: an off-centre assembly gets two entries; the one for the
+copy placed at the cell turned by 120° (240°) lists the source's blocks copied and turned by `rotNum` 2 (4). With
+`copyBlock_pins`: cell and pins turn by the same angle, so (C08 `rotateIndex_geom_field`, which holds for the flats-up
+core lattice and the corners-up pin lattice alike) every pin's global position is the source's turned about the core
+axis. -/
+theorem convert_copies_below (sub : Sub) (a : Assem) (n : Int) (h : isCentre a.cell = false) :
+    subCopies sub a n 1 (sym3 a.cell) =
+      [(n, (subOf sub a.id).map (copyBlock n 2)), (n + 1, (subOf sub a.id).map (copyBlock (n + 1) 4))] ∧
+    (mkCopies a n 1 (sym3 a.cell)).map (fun x => (x.id, x.cell)) =
+      [(n, rotateIndex 2 a.cell), (n + 1, rotateIndex 4 a.cell)] := by
+  rw [sym3_are_rotations a.cell h]
+  simp [subCopies, mkCopies]
+
+/-! #### the operations only ever append clean, owned entries with fresh keys -/
+
+private theorem placeEdge_next (s : State) (a : Assem) (loc : Cell) : (placeEdge s a loc).next = s.next + 1 := rfl
+
+private theorem convert_keys_eq (s : State) (sub : Sub) (hf : s.full = false) :
+    (subLoop sub ((removeEdgeCore s).kids.mergeSort leJI) (removeEdgeCore s).next).map (·.1) =
+      (loopOut s).copies.map (·.id) := by
+  have h1 : (removeEdgeCore s).kids = base s := by simp [removeEdgeCore, hf, base]
+  have h2 : (removeEdgeCore s).next = s.next := by unfold removeEdgeCore; split <;> rfl
+  rw [h1, h2]; exact subLoop_keys sub _ _ _ _
+
+private theorem convert_key_lt (s : State) (sub : Sub) (hf : s.full = false) :
+    ∀ e ∈ subLoop sub ((removeEdgeCore s).kids.mergeSort leJI) (removeEdgeCore s).next,
+      e.1 < (step s .convert).next := by
+  intro e he
+  have hm : e.1 ∈ (loopOut s).copies.map (·.id) := by
+    rw [← convert_keys_eq s sub hf]; exact List.mem_map_of_mem he
+  obtain ⟨b, hb, hid⟩ := List.mem_map.1 hm
+  have hlt := ((convLoop_ids ((base s).mergeSort leJI) s.next (s.flag || s.kids.any (fun a => on120 a.cell))
+    s.convList).1 b hb).2
+  have hn : (step s .convert).next = (loopOut s).next := by
+    simp [step, convert, removeEdgeCore, hf, loopOut, base]
+  rw [hn, ← hid]; exact hlt
+
+private theorem convert_keys_nodup (s : State) (sub : Sub) (hf : s.full = false) :
+    ((subLoop sub ((removeEdgeCore s).kids.mergeSort leJI) (removeEdgeCore s).next).map (·.1)).Nodup := by
+  rw [convert_keys_eq s sub hf]
+  exact (convLoop_ids _ _ _ _).2
+
+
+private theorem addEdgeLoop_next_ge (l : List Assem) (s : State) : s.next ≤ (addEdgeLoop l s).next := by
+  induction l generalizing s with
+  | nil => simp [addEdgeLoop]
+  | cons a l ih =>
+    unfold addEdgeLoop
+    split
+    · exact ih s
+    · split
+      · exact ih s
+      · rename_i loc _ _ _
+        have := ih (placeEdge s a loc)
+        rw [placeEdge_next] at this
+        omega
+
+private theorem addEdgeLoop_ext (l : List Assem) (s : State) (sub : Sub) :
+    ∃ extra, subAddEdgeLoop l s sub = sub ++ extra ∧
+      ∀ e ∈ extra, s.next ≤ e.1 ∧ e.1 < (addEdgeLoop l s).next ∧ CleanEntry e ∧ OwnedEntry e := by
+  induction l generalizing s sub with
+  | nil => exact ⟨[], by simp [subAddEdgeLoop], by simp⟩
+  | cons a l ih =>
+    unfold subAddEdgeLoop addEdgeLoop
+    split
+    · exact ih s sub
+    · split
+      · exact ih s sub
+      · rename_i loc _ _ _
+        obtain ⟨extra, he, hx⟩ := ih (placeEdge s a loc) (sub ++ [(s.next, (subOf sub a.id).map (copyBlock s.next 0))])
+        refine ⟨(s.next, (subOf sub a.id).map (copyBlock s.next 0)) :: extra, by rw [he]; simp, ?_⟩
+        intro e hm
+        rcases List.mem_cons.1 hm with rfl | hm
+        · have hge := addEdgeLoop_next_ge l (placeEdge s a loc)
+          rw [placeEdge_next] at hge
+          exact ⟨by simp, by simp only; omega, (copied_entry sub a.id s.next 0).1, (copied_entry sub a.id s.next 0).2⟩
+        · obtain ⟨h1, h1', h2, h3⟩ := hx e hm
+          rw [placeEdge_next] at h1
+          exact ⟨by omega, h1', h2, h3⟩
+
+/-- **each operation leaves the existing table as it is and appends entries whose keys are assembly numbers not yet
+handed out, each clean (objects of its own) and owned (lattice ↔ block)** -/
+theorem subStep_extends (s : State) (sub : Sub) (op : Op) :
+    ∃ extra, subStep s sub op = sub ++ extra ∧
+      ∀ e ∈ extra, s.next ≤ e.1 ∧ e.1 < (step s op).next ∧ CleanEntry e ∧ OwnedEntry e := by
+  cases op with
+  | restore => exact ⟨[], by simp [subStep], by simp⟩
+  | removeEdge => exact ⟨[], by simp [subStep], by simp⟩
+  | convert =>
+    simp only [subStep, subConvert]
+    split
+    · exact ⟨[], by simp, by simp⟩
+    · refine ⟨_, rfl, ?_⟩
+      intro e he
+      rename_i hfull
+      have hf : s.full = false := by simpa using hfull
+      have hsp := subLoop_spec sub _ _ e he
+      have hn : (removeEdgeCore s).next = s.next := by unfold removeEdgeCore; split <;> rfl
+      rw [hn] at hsp
+      refine ⟨hsp.1, ?_, hsp.2.1, hsp.2.2⟩
+      exact convert_key_lt s sub hf e he
+  | addEdge =>
+    simp only [subStep, subAddEdge]
+    split
+    · exact ⟨[], by simp, by simp⟩
+    · split
+      · exact ⟨[], by simp, by simp⟩
+      · obtain ⟨extra, h1, h2⟩ := addEdgeLoop_ext ((s.kids.filter (fun a => on0 a.cell)).mergeSort leI) s sub
+        refine ⟨extra, h1, ?_⟩
+        intro e he
+        obtain ⟨a1, a2, a3, a4⟩ := h2 e he
+        refine ⟨a1, ?_, a3, a4⟩
+        rename_i hfull hadded
+        simpa [step, addEdge, hfull, hadded] using a2
+
+private theorem subOf_append (sub extra : Sub) (k : Int) (hk : ∃ e ∈ sub, e.1 = k) :
+    subOf (sub ++ extra) k = subOf sub k := by
+  unfold subOf
+  rw [List.find?_append]
+  obtain ⟨e, he, hek⟩ := hk
+  cases hf : sub.find? (fun e => decide (e.1 = k)) with
+  | some x => simp
+  | none =>
+    have := List.find?_eq_none.1 hf e he
+    simp [hek] at this
+
+/-- **one operation never changes what hangs below an assembly that has an entry** (existing entries are neither
+rewritten nor shadowed) -/
+theorem sources_untouched_step (s : State) (sub : Sub) (op : Op) (k : Int) (he : ∃ e ∈ sub, e.1 = k) :
+    subOf (subStep s sub op) k = subOf sub k ∧ ∃ e ∈ subStep s sub op, e.1 = k := by
+  obtain ⟨extra, hx, _⟩ := subStep_extends s sub op
+  rw [hx]
+  obtain ⟨e, hm, hk⟩ := he
+  exact ⟨subOf_append sub extra k ⟨e, hm, hk⟩, e, List.mem_append_left _ hm, hk⟩
+
+theorem clean_step (s : State) (sub : Sub) (op : Op) (h : Clean sub) : Clean (subStep s sub op) := by
+  obtain ⟨extra, hx, hp⟩ := subStep_extends s sub op
+  rw [hx]
+  intro e he
+  rcases List.mem_append.1 he with he | he
+  · exact h e he
+  · exact (hp e he).2.2.1
+
+private theorem subOf_mem (sub : Sub) (k : Int) (b : PBlock) (hb : b ∈ subOf sub k) : ∃ e ∈ sub, e.1 = k ∧ b ∈ e.2 := by
+  unfold subOf at hb
+  cases hf : sub.find? (fun e => decide (e.1 = k)) with
+  | none => simp [hf] at hb
+  | some e =>
+    simp only [hf] at hb
+    exact ⟨e, List.mem_of_find?_eq_some hf, by simpa using List.find?_some hf, hb⟩
+
+/-- in a clean table every object below assembly `k` carries the number `k` -/
+theorem objsOf_clean (sub : Sub) (h : Clean sub) (k : Int) : ∀ o ∈ objsOf sub k, o.1 = k := by
+  intro o ho
+  obtain ⟨b, hb, hob⟩ := List.mem_flatMap.1 ho
+  obtain ⟨e, he, hek, hbe⟩ := subOf_mem sub k b hb
+  rw [← hek]; exact h e he b hbe o hob
+
+/-- **no shared node: two assemblies with different numbers have no object in common** (block, pin lattice, lattice
+owner) -/
+theorem no_shared_node (sub : Sub) (h : Clean sub) (k k' : Int) (hne : k ≠ k') :
+    ∀ o ∈ objsOf sub k, o ∉ objsOf sub k' := by
+  intro o ho ho'
+  exact hne ((objsOf_clean sub h k o ho).symm.trans (objsOf_clean sub h k' o ho'))
+
+/-- assembly numbers are never handed out twice: `maxAssemNum` only grows -/
+theorem next_mono (s : State) (op : Op) : s.next ≤ (step s op).next := by
+  cases op with
+  | restore => simp only [step, restore]; split <;> simp
+  | removeEdge => simp only [step, removeEdge, removeEdgeCore]; split <;> simp
+  | convert =>
+    cases hf : s.full
+    · exact convert_next_ge s hf
+    · simp [step, convert, hf]
+  | addEdge =>
+    simp only [step, addEdge]
+    split
+    · simp
+    · split
+      · simp
+      · exact addEdgeLoop_next_ge _ s
+
+
+/-! #### any sequence of operations -/
+
+/-- all keys of the table are assembly numbers already handed out -/
+def FreshTable (sub : Sub) (n : Int) : Prop := ∀ e ∈ sub, e.1 < n
+
+theorem fresh_step (s : State) (sub : Sub) (op : Op) (h : FreshTable sub s.next) :
+    FreshTable (subStep s sub op) (step s op).next := by
+  obtain ⟨extra, hx, hp⟩ := subStep_extends s sub op
+  rw [hx]
+  intro e he
+  rcases List.mem_append.1 he with he | he
+  · have := h e he; have := next_mono s op; omega
+  · exact (hp e he).2.1
+
+/-- **in every state reachable by any sequence of the four operations the table is clean (so `no_shared_node` applies:
+no two assemblies share an object below them) and its keys are numbers already handed out** -/
+theorem clean_run (ops : List Op) (p : State × Sub) (h : Clean p.2) (hf : FreshTable p.2 p.1.next) :
+    Clean (prun p ops).2 ∧ FreshTable (prun p ops).2 (prun p ops).1.next := by
+  induction ops generalizing p with
+  | nil => exact ⟨h, hf⟩
+  | cons op rest ih => exact ih (pstep p op) (clean_step p.1 p.2 op h) (fresh_step p.1 p.2 op hf)
+
+/-- **exact restoration below block level: whatever the history, every assembly that had an entry has the same blocks,
+the same pin lattices with the same owners and the same pins afterwards** (after `restorePreviousGeometry`, after
+`removeEdgeAssemblies`, and in between) -/
+theorem sources_untouched_run (ops : List Op) (p : State × Sub) (k : Int) (he : ∃ e ∈ p.2, e.1 = k) :
+    subOf (prun p ops).2 k = subOf p.2 k := by
+  induction ops generalizing p with
+  | nil => rfl
+  | cons op rest ih =>
+    obtain ⟨h1, h2⟩ := sources_untouched_step p.1 p.2 op k he
+    exact (ih (pstep p op) h2).trans h1
+
+private theorem find_of_nodup_keys (l : Sub) (h : (l.map (·.1)).Nodup) (e : Int × List PBlock) (he : e ∈ l) :
+    l.find? (fun x => decide (x.1 = e.1)) = some e := by
+  induction l with
+  | nil => simp at he
+  | cons x l ih =>
+    simp only [List.map_cons, List.nodup_cons] at h
+    rcases List.mem_cons.1 he with rfl | he
+    · simp
+    · have hne : x.1 ≠ e.1 := fun hx => h.1 (hx ▸ List.mem_map_of_mem he)
+      simp [hne, ih h.2 he]
+
+/-- **every copy `convert` makes is found under its own number with the entry made for it** (its number is new, so no
+older entry answers for it; the new entries have pairwise distinct numbers) -/
+theorem convert_entries_visible (s : State) (sub : Sub) (hf : s.full = false) (hfr : FreshTable sub s.next) :
+    ∀ e ∈ subLoop sub ((removeEdgeCore s).kids.mergeSort leJI) (removeEdgeCore s).next,
+      subOf (subConvert s sub) e.1 = e.2 := by
+  intro e he
+  have hn : (removeEdgeCore s).next = s.next := by unfold removeEdgeCore; split <;> rfl
+  have hge := (subLoop_spec sub _ _ e he).1
+  rw [hn] at hge
+  unfold subConvert subOf
+  simp only [hf, Bool.false_eq_true, if_false]
+  rw [List.find?_append]
+  have hnone : sub.find? (fun x => decide (x.1 = e.1)) = none := by
+    apply List.find?_eq_none.2
+    intro x hx
+    have := hfr x hx
+    simp; omega
+  rw [hnone, Option.none_or, find_of_nodup_keys _ (convert_keys_nodup s sub hf) e he]
+
+
+/-! #### non-vacuity: `exCore` with pin lattices on the off-centre assemblies -/
+
+def exSub : Sub :=
+  [(0, [⟨(0, 0), none, none, true, []⟩]),
+   (1, [⟨(1, 0), some (1, 100), some (1, 0), true, [(1, 0), (2, -1)]⟩]),
+   (2, [⟨(2, 0), some (2, 100), some (2, 0), true, [(0, 3)]⟩, ⟨(2, 1), none, none, true, []⟩])]
+
+example : Clean exSub ∧ FreshTable exSub exCore.next := by
+  constructor
+  · intro e he; simp [exSub] at he; rcases he with rfl | rfl | rfl <;> intro b hb <;> simp at hb
+    · subst hb; intro o ho; simp [objsB] at ho; subst ho; rfl
+    · subst hb; intro o ho; simp [objsB] at ho; rcases ho with rfl | rfl | rfl <;> rfl
+    · rcases hb with rfl | rfl <;> intro o ho <;> simp [objsB] at ho
+      · rcases ho with rfl | rfl | rfl <;> rfl
+      · subst ho; rfl
+  · intro e he; simp [exSub] at he; rcases he with rfl | rfl | rfl <;> decide
+
+/-- the copies of assembly 1 (cell (2,−1), on the 0° line), numbered 10 and 11: own block, own lattice owned by that
+block, pins (1,0), (2,−1) turned to (−1,1), (−1,2) [turn 2] and (0,−1), (−1,−1) [turn 4]; assembly 1 itself is as
+before after any history -/
+example : subCopies exSub ⟨1, (2, -1), 101, 0, [5], [1 / 2]⟩ 10 1 (sym3 (2, -1)) =
+      [(10, [⟨(10, 0), some (10, 100), some (10, 0), true, [(-1, 1), (-1, 2)]⟩]),
+       (11, [⟨(11, 0), some (11, 100), some (11, 0), true, [(0, -1), (-1, -1)]⟩])] := by decide
+
+example : subOf (prun (exCore, exSub) [.convert, .restore, .addEdge, .removeEdge]).2 1 = subOf exSub 1 :=
+  sources_untouched_run _ _ 1 ⟨(1, [⟨(1, 0), some (1, 100), some (1, 0), true, [(1, 0), (2, -1)]⟩]), by simp [exSub], rfl⟩
+
+example : ∀ o ∈ objsOf (prun (exCore, exSub) [.addEdge, .convert]).2 10,
+    o ∉ objsOf (prun (exCore, exSub) [.addEdge, .convert]).2 1 :=
+  no_shared_node _ (clean_run _ _ (by
+    intro e he; simp [exSub] at he; rcases he with rfl | rfl | rfl <;> intro b hb <;> simp at hb
+    · subst hb; intro o ho; simp [objsB] at ho; subst ho; rfl
+    · subst hb; intro o ho; simp [objsB] at ho; rcases ho with rfl | rfl | rfl <;> rfl
+    · rcases hb with rfl | rfl <;> intro o ho <;> simp [objsB] at ho
+      · rcases ho with rfl | rfl | rfl <;> rfl
+      · subst ho; rfl) (by intro e he; simp [exSub] at he; rcases he with rfl | rfl | rfl <;> decide)).1 10 1 (by decide)
+
+
+/-! #### pin positions in the plane (any field with a square root of 3, e.g. ℝ with s = √3)
+
+The centre of cell `c` of a hex lattice with pitch `p` (coefficients `Hex.coef`: flats up x = a·(√3/2)p, y = b·p/2;
+corners up x = a·p/2, y = b·(√3/2)p).  The core lattice is flats up, the pin lattice nested in it corners up
+(`autoCreateSpatialGrids`); a pin's global position is its assembly's centre plus its own offset
+(`IndexLocation.getGlobalCoordinates`: local coordinates + the parent locator's global coordinates). -/
+
+def cellXY {K : Type} [Field K] (cu : Bool) (p s : K) (c : Int × Int) : K × K :=
+  if cu then (((coef cu c.1 c.2).1 : K) * (p / 2), ((coef cu c.1 c.2).2 : K) * (s / 2 * p))
+  else (((coef cu c.1 c.2).1 : K) * (s / 2 * p), ((coef cu c.1 c.2).2 : K) * (p / 2))
+
+/-- rotation by +60° about the core axis: cos 60° = 1/2, sin 60° = s/2 -/
+def turn60 {K : Type} [Field K] (s : K) (v : K × K) : K × K := (v.1 / 2 - s / 2 * v.2, s / 2 * v.1 + v.2 / 2)
+
+/-- global position of the pin at lattice site `pin` of the assembly at `cell` (core pitch `P`, pin pitch `p`) -/
+def pinXY {K : Type} [Field K] (P p s : K) (cell pin : Int × Int) : K × K :=
+  ((cellXY false P s cell).1 + (cellXY true p s pin).1, (cellXY false P s cell).2 + (cellXY true p s pin).2)
+
+private theorem cellXY_rot1 {K : Type} [Field K] (cu : Bool) (p s : K) (hs : s * s = 3) (h2 : (2 : K) ≠ 0)
+    (c : Int × Int) : cellXY cu p s (rot1 c) = turn60 s (cellXY cu p s c) := by
+  obtain ⟨i, j⟩ := c
+  cases cu
+  · simp only [cellXY, turn60, coef, rot1, Bool.false_eq_true, if_false, Prod.mk.injEq]
+    push_cast
+    constructor
+    · field_simp; ring
+    · field_simp
+      linear_combination (-(i : K) * p) * hs
+  · simp only [cellXY, turn60, coef, rot1, if_true, Prod.mk.injEq]
+    push_cast
+    constructor
+    · field_simp
+      linear_combination ((i : K) + j) * p * hs
+    · field_simp; ring
+
+private theorem rotateIndex_two (c : Int × Int) : rotateIndex 2 c = rot1 (rot1 c) := by
+  simp [rotateIndex, rot1]
+
+private theorem rotateIndex_four (c : Int × Int) : rotateIndex 4 c = rot1 (rot1 (rot1 (rot1 c))) := by
+  simp [rotateIndex, rot1]; omega
+
+private theorem turn60_add {K : Type} [Field K] (s : K) (u v : K × K) :
+    turn60 s (u.1 + v.1, u.2 + v.2) = ((turn60 s u).1 + (turn60 s v).1, (turn60 s u).2 + (turn60 s v).2) := by
+  simp only [turn60, Prod.mk.injEq]; constructor <;> ring
+
+/-- **a copy's pins are its source's pins turned about the core axis**: the copy placed at the cell turned by 120°
+(`rotateIndex 2`, the first symmetric equivalent) whose pin sites were turned by `rotNum` 2 in their lattice has every
+pin at the source pin's global position rotated by 2 × 60°; for every core pitch and pin pitch. -/
+theorem pin_global_turn_120 {K : Type} [Field K] (P p s : K) (hs : s * s = 3) (h2 : (2 : K) ≠ 0)
+    (cell pin : Int × Int) :
+    pinXY P p s (rotateIndex 2 cell) (rotateIndex 2 pin) = turn60 s (turn60 s (pinXY P p s cell pin)) := by
+  unfold pinXY
+  rw [rotateIndex_two, rotateIndex_two, cellXY_rot1 _ _ _ hs h2, cellXY_rot1 _ _ _ hs h2, cellXY_rot1 _ _ _ hs h2,
+    cellXY_rot1 _ _ _ hs h2, turn60_add, turn60_add]
+
+/-- the second copy: cell and pins turned by 240° -/
+theorem pin_global_turn_240 {K : Type} [Field K] (P p s : K) (hs : s * s = 3) (h2 : (2 : K) ≠ 0)
+    (cell pin : Int × Int) :
+    pinXY P p s (rotateIndex 4 cell) (rotateIndex 4 pin) =
+      turn60 s (turn60 s (turn60 s (turn60 s (pinXY P p s cell pin)))) := by
+  unfold pinXY
+  rw [rotateIndex_four, rotateIndex_four]
+  simp only [cellXY_rot1 _ _ _ hs h2, turn60_add]
+
+
+/-! #### `_scaleBlockVolIntegratedParams`, value by value -/
+
+private theorem mul3_div3 (x : Rat) : x * 3 / 3 = x := by
+  rw [mul_div_assoc, div_self (by norm_num : (3 : Rat) ≠ 0), mul_one]
+
+/-- **scaling "down" undoes scaling "up" for every kind of value** (`None` stays `None`, a list stays a list of the
+same length, an array an array): what makes `restorePreviousGeometry` give the centre assembly its parameters back -/
+theorem scaleVal_down_up (v : PVal) : scaleVal false (scaleVal true v) = v := by
+  cases v with
+  | none => rfl
+  | list l =>
+    simp only [scaleVal, if_true, Bool.false_eq_true, if_false, List.map_map]
+    congr 1; conv_rhs => rw [← List.map_id l]
+    exact List.map_congr_left (fun x _ => mul3_div3 x)
+  | scalar q => simp only [scaleVal, if_true, Bool.false_eq_true, if_false, mul3_div3]
+  | array l =>
+    simp only [scaleVal, if_true, Bool.false_eq_true, if_false, List.map_map]
+    congr 1; conv_rhs => rw [← List.map_id l]
+    exact List.map_congr_left (fun x _ => mul3_div3 x)
+
+theorem scaleBlockVals_down_up (vs : List PVal) : scaleBlockVals false (scaleBlockVals true vs) = vs := by
+  simp only [scaleBlockVals, List.map_map]
+  conv_rhs => rw [← List.map_id vs]
+  exact List.map_congr_left (fun v _ => scaleVal_down_up v)
+
+/-- scaling "up" multiplies the sum of a value by three (the centre assembly then counts once in full-core totals) -/
+def valSum : PVal → Rat
+  | .none => 0
+  | .list l => l.sum
+  | .scalar q => q
+  | .array l => l.sum
+
+private theorem sum_map_mul3 (l : List Rat) : (l.map (fun x => x * 3)).sum = l.sum * 3 := by
+  induction l with
+  | nil => simp
+  | cons a l ih => simp [ih]; ring
+
+theorem scaleVal_up_sum (v : PVal) : valSum (scaleVal true v) = 3 * valSum v := by
+  cases v with
+  | none => simp [scaleVal, valSum]
+  | list l => simp [scaleVal, valSum, sum_map_mul3]; ring
+  | scalar q => simp [scaleVal, valSum]; ring
+  | array l => simp [scaleVal, valSum, sum_map_mul3]; ring
+
+example : scaleBlockVals true [.none, .list [1 / 2, 3], .scalar 5, .array [1]] =
+    [.none, .list [3 / 2, 9], .scalar 15, .array [3]] := by decide +kernel
+
 
 end ArmiVerif.Sym3
